@@ -533,9 +533,17 @@ struct ImageCheck<'a> {
     decode: bool,
     /// also compare hash_table_utilization() of the recovered handle with the decoded image
     occupancy: bool,
+    /// run the follow-up commit BEFORE anything is read from the recovered store (the side is
+    /// taken from sync_seqn alone), so that the first operation after recovery meets cold caches;
+    /// the audit that follows still compares every key with the chosen side + the follow-up batch
+    cold_follow_up: bool,
 }
 
 fn side_audit(n: &nomt::Nomt<B3>, sides: &Sides, uni: &[Key], t: u64, what: &str) -> Result<Model, Violation> {
+    side_audit_opt(n, sides, uni, t, what, true)
+}
+
+fn side_audit_opt(n: &nomt::Nomt<B3>, sides: &Sides, uni: &[Key], t: u64, what: &str, read_back: bool) -> Result<Model, Violation> {
     let seqn = n.sync_seqn();
     let chosen: &Model = if seqn == sides.old.seqn {
         if let Some(req) = sides.new_required_from {
@@ -555,6 +563,9 @@ fn side_audit(n: &nomt::Nomt<B3>, sides: &Sides, uni: &[Key], t: u64, what: &str
             format!("{what}: reopened store has sync_seqn {seqn}, neither old {} nor new {:?}", sides.old.seqn, sides.new.map(|m| m.seqn)),
         ));
     };
+    if !read_back {
+        return Ok(chosen.clone());
+    }
     audit::<B3>(n, chosen, uni, AuditFlags::ALL).map_err(|m| {
         viol(
             "mixed-state",
@@ -593,7 +604,9 @@ fn check_image(ic: &ImageCheck, img: &DirImage, sides: &Sides, t: u64, what: &st
         Ok(Err(e)) => return Err(viol("recovery-failed", format!("{what}: Nomt::open failed on the crash image: {e:#}"))),
         Ok(Ok(n)) => n,
     };
-    let mut model = side_audit(&n, sides, ic.uni, t, what)?;
+    // (not for the tiny full tables, whose follow-up commit may legitimately be refused)
+    let cold = ic.cold_follow_up && ic.follow_up && ic.cfg.buckets > 8;
+    let mut model = side_audit_opt(&n, sides, ic.uni, t, what, !cold)?;
     out.states.push(fnv_str(&format!("{}:{}", model.seqn, what.len())));
     if rtrace.events.iter().any(|e| e.file == "ht" && is_mutation(e)) {
         out.goals.push("wal-replayed");
@@ -674,6 +687,7 @@ fn check_image(ic: &ImageCheck, img: &DirImage, sides: &Sides, t: u64, what: &st
                     dir: ic.nested_dir.clone(),
                     nested_dir: ic.nested_dir.clone(),
                     follow_up: false,
+                    cold_follow_up: false,
                     nested: None,
                     decode: ic.decode,
                     occupancy: ic.occupancy,
@@ -903,6 +917,7 @@ impl CrashX {
                 dir: self.scratch.dir("img"),
                 nested_dir: self.scratch.dir("img-nested"),
                 follow_up: true,
+                cold_follow_up: case["lazy"].as_bool().unwrap_or(false),
                 nested: if nested { Some(if mode == "c03" { "c03" } else { "c04" }) } else { None },
                 decode: case["decode"].as_bool().unwrap_or(mode == "c03"),
                 occupancy: case["occupancy"].as_bool().unwrap_or(false),
